@@ -321,22 +321,24 @@ fn gen_case(r: &mut Rng, id: u64, thorough: bool) -> Value {
     for _ in 0..len {
         if r.chance(13, 100) {
             // the less common entry points
-            match r.below(18) {
-                12..=17 => {
+            match r.below(15) {
+                12..=14 => {
                     // stored keys
                     if g.keys.is_empty() || r.chance(1, 6) { let slot = g.push(json!({"op": "key_generate", "alg": *r.pick(ALGS), "null_out": false})); g.keys.push(slot); }
                     let kn = json!(*r.pick(&["k1", "k2", "", "clé \u{1F511}"]));
-                    let sub = r.below(10);
-                    let write = sub < 6;
-                    let Some((h, _)) = g.sess_handle(r, write, bad) else { continue };
+                    let Some((h, hs)) = g.sess_handle(r, true, bad) else { continue };
                     let md = cstr_or_null(r, &["meta", "", "{\"a\":1}", "ü"], 40);
-                    match sub {
-                        0..=2 => { let (tt, ts, esc) = tags_arg(r, 10); let key = if r.chance(1, 12) { json!(1000000) } else { json!(*r.pick(&g.keys)) };
-                                   g.push(json!({"op": "key_insert", "h": h, "key": key, "n": if r.chance(1, 20) { Value::Null } else { kn }, "md": md, "tt": tt, "ts": ts, "key_escaped": esc, "cb": G::cb(r)})); }
-                        3 | 4 => { let (tt, ts, esc) = tags_arg(r, 10); g.push(json!({"op": "key_update", "h": h, "n": kn, "md": md, "tt": tt, "ts": ts, "key_escaped": esc, "cb": G::cb(r)})); }
-                        5 => { g.push(json!({"op": "key_remove", "h": h, "n": kn, "cb": G::cb(r)})); }
-                        6..=8 => { g.push(json!({"op": "key_fetch", "h": h, "n": if r.chance(1, 20) { Value::Null } else { kn }, "cb": G::cb(r)})); }
-                        _ => { g.push(json!({"op": "key_fetch_all", "h": h, "alg": cstr_or_null(r, ALGS, 50), "lim": *r.pick(&[-1i64, -1, -1, 0, 1, 5]), "cb": G::cb(r)})); }
+                    let steps = if hs.is_some() { 2 + r.below(6) } else { 2 };
+                    for st in 0..steps {
+                        let sub = if st == 0 { r.below(3) } else { r.below(10) };
+                        match sub {
+                            0..=2 => { let (tt, ts, esc) = tags_arg(r, 10); let key = if r.chance(1, 12) { json!(1000000) } else { json!(*r.pick(&g.keys)) };
+                                       g.push(json!({"op": "key_insert", "h": h, "key": key, "n": if r.chance(1, 20) { Value::Null } else { kn.clone() }, "md": md, "tt": tt, "ts": ts, "key_escaped": esc, "cb": G::cb(r)})); }
+                            3 | 4 => { let (tt, ts, esc) = tags_arg(r, 10); let md2 = cstr_or_null(r, &["meta2", "", "ü"], 40); g.push(json!({"op": "key_update", "h": h, "n": kn, "md": md2, "tt": tt, "ts": ts, "key_escaped": esc, "cb": G::cb(r)})); }
+                            5 => { g.push(json!({"op": "key_remove", "h": h, "n": kn, "cb": G::cb(r)})); }
+                            6..=8 => { g.push(json!({"op": "key_fetch", "h": h, "n": if r.chance(1, 20) { Value::Null } else { kn.clone() }, "cb": G::cb(r)})); }
+                            _ => { g.push(json!({"op": "key_fetch_all", "h": h, "alg": cstr_or_null(r, ALGS, 60), "lim": *r.pick(&[-1i64, -1, -1, 0, 1, 5]), "cb": G::cb(r)})); }
+                        }
                     }
                 }
                 0 | 1 => if let Some(i) = g.usable_store(r, true) {
@@ -573,6 +575,7 @@ pub fn gen(r: &mut Rng, thorough: bool, count: Option<usize>) -> Vec<Value> {
         let mut rr = r.fork();
         if i % 75 == 74 { out.push(gen_bad_utf8(&mut rr, i as u64)); }
         else if i == 7 { out.push(json!({"id": i, "kind": "c19", "ops": [{"op": "raw_key_null_out"}]})); }
+        else if i == 9 { out.push(json!({"id": i, "kind": "c19", "ops": [{"op": "current_error_null_out"}]})); }
         else if i % 8 == 3 { out.push(gen_rekey_case(&mut rr, i as u64)); }
         else { out.push(gen_case(&mut rr, i as u64, thorough)); }
     }
